@@ -234,6 +234,12 @@ func genConfig(r *kernel.Rand, o GenOpts, nUE int) scn.Config {
 	c.GnbName = string(name)
 	c.SST = r.Pick(0, 1, 1, 2, 3, 255, r.Intn(256)) // 0 is a legal SST: an explicit zero must not be taken for "unset"
 	c.SD = hexCase(r, r.Bytes(3))
+	switch r.Sub("sd").Intn(8) { // the two ends of the SD range (ffffff is "no SD associated" in TS 23.003, still a value to carry)
+	case 0:
+		c.SD = "000000"
+	case 1:
+		c.SD = hexCase(r.Sub("sdcase"), []byte{0xff, 0xff, 0xff})
+	}
 	ifs := ifaces()
 	c.DLIface = ifs[r.Intn(len(ifs))]
 	c.ULIface = ifs[r.Intn(len(ifs))]
@@ -242,6 +248,15 @@ func genConfig(r *kernel.Rand, o GenOpts, nUE int) scn.Config {
 
 func genAMF(r *kernel.Rand) scn.AMFParams {
 	a := scn.AMFParams{Name: "amf" + r.Digits(r.Range(1, 8)), Region: r.Intn(256), SetID: r.Intn(1024), Pointer: r.Intn(64), Capacity: r.Intn(256), NSlices: r.Range(1, 3)}
+	rp := r.Sub("plmns")
+	if rp.Chance(1, 3) { // the AMF serves further PLMNs, listed before and/or after the gNB's
+		for i := 0; i < rp.Intn(3); i++ {
+			a.PLMNsBefore = append(a.PLMNsBefore, rp.Digits(3)+rp.Digits(2+rp.Intn(2)))
+		}
+		for i := 0; i < rp.Intn(3); i++ {
+			a.PLMNsAfter = append(a.PLMNsAfter, rp.Digits(3)+rp.Digits(2+rp.Intn(2)))
+		}
+	}
 	if r.Chance(1, 4) {
 		a.Backup = "backup-" + r.Digits(3)
 	}
@@ -324,13 +339,31 @@ func genUE(r *kernel.Rand, o GenOpts, ord int) scn.UEParams {
 	p.TMSI = hex.EncodeToString(r.Bytes(4))
 	p.IDPairInRel = r.Chance(3, 4)
 	if o.OptIEs {
-		p.AuthOptIEs = r.Intn(16)
+		// option sets: the empty set, the full set and singletons are as likely as a random subset, so
+		// that "this IE is the last / the only one" and "message k is longer than message k-1" are common
+		ro := r.Sub("optsets")
+		mask := func(bits int) int {
+			switch ro.Intn(5) {
+			case 0:
+				return 0
+			case 1:
+				return 1<<uint(bits) - 1
+			case 2:
+				return 1 << uint(ro.Intn(bits))
+			}
+			return ro.Intn(1 << uint(bits))
+		}
+		p.AuthOptIEs = mask(4)
+		p.SMCNgapOpt = mask(4)
+		p.CUCNgapOpt = mask(4)
+		p.DeregNgapOpt = mask(4)
 		p.SMCOpt = r.Intn(8) | r.Intn(4)<<4
-		p.ICSOpt = r.Intn(32)
-		p.RegAccOpt = r.Intn(32)
+		p.ICSOpt = mask(5)
+		p.RegAccOpt = mask(5)
 		p.CUCOpt = r.Intn(4)
-		p.AccOpt = r.Intn(1 << 15)
-		p.TransOpt = r.Intn(16)
+		p.AccOpt = mask(15)
+		p.TransOpt = mask(4)
+		_ = r.Intn(16) + r.Intn(32) + r.Intn(32) + r.Intn(1<<15) + r.Intn(16) // keep the other draws of this stream where they were
 		p.SetupOpt = r.Intn(2) << 1 // UE-AMBR after the list
 		if o.TopLevelOpts && r.Chance(1, 4) {
 			p.SetupOpt |= 1 // RANPagingPriority before the list
